@@ -75,6 +75,7 @@ pub fn run(c: &Campaign<'_>) -> Outcome {
             .arg(format!("-seed={}", c.seed.wrapping_mul(16).wrapping_add(k as u64 + 1) % 4_000_000_000 + 1))
             .arg(format!("-runs={}", c.runs))
             .arg("-len_control=0")
+            .arg("-use_value_profile=1")
             .arg(format!("-max_len={}", c.max_len))
             .arg("-timeout=20")
             .arg("-rss_limit_mb=2048")
@@ -289,6 +290,8 @@ pub fn replay_lock_corpus(ctx: &ShardCtx, id: &'static str, sub: &'static str, f
         match guarded(|| lockstep::run_case(&case, flags)) {
             Ok(Ok(stats)) => {
                 ctx.class("fuzz corpus entries replayed");
+                ctx.count_evals(stats.steps);
+                ctx.class_n("api calls checked", stats.steps);
                 if let Some(i) = stats.inconclusive {
                     ctx.inconclusive(i);
                 }
